@@ -47,6 +47,12 @@ func typeName(t types.Type) string {
 }
 
 // setType is a spec-only type: a mathematical set of elem.
+// realType is a spec-only type: mathematical reals (exact values of ints and floats).
+type realType struct{}
+
+func (realType) Underlying() types.Type { return realType{} }
+func (realType) String() string         { return "real" }
+
 type setType struct{ elem types.Type }
 
 func (s *setType) Underlying() types.Type { return s }
@@ -140,6 +146,52 @@ func smtString(s string) string {
 	}
 	sb.WriteByte('"')
 	return sb.String()
+}
+
+// intToFloatTerm converts an integer term (in the range of ii) to a float exactly as
+// Go does (round to nearest even), through a 64-bit vector so that solvers bit-blast it
+// instead of reasoning over reals.
+func intToFloatTerm(ii intInfo, t string, eb, sb int) string {
+	if ii.signed {
+		return fmt.Sprintf("((_ to_fp %d %d) RNE ((_ int2bv 64) %s))", eb, sb, t)
+	}
+	return fmt.Sprintf("((_ to_fp_unsigned %d %d) RNE ((_ int2bv 64) %s))", eb, sb, t)
+}
+
+// floatToIntTerm: truncation of a float64 that is known to be in the int range.
+func floatToIntTerm(ii intInfo, f string) string {
+	if ii.signed {
+		return fmt.Sprintf("(let ((b!c ((_ fp.to_sbv 64) RTZ %s))) (ite (bvslt b!c #x0000000000000000) (- (bv2nat b!c) 18446744073709551616) (bv2nat b!c)))", f)
+	}
+	return fmt.Sprintf("(bv2nat ((_ fp.to_ubv 64) RTZ %s))", f)
+}
+
+// exactLessIntFloat: i < f for an integer term i (any value in [-2^63, 2^64)) and a
+// finite float64 f, decided without reals through a 66-bit signed vector: rounding i to
+// float64 is monotone, so fl(i) < f implies i < f, fl(i) > f implies i > f, and
+// fl(i) == f means f is an integer of magnitude < 2^65, which the vector represents.
+const exactHi = "((_ to_fp 11 53) RNE 36893488147419103232.0)"      // 2^65
+const exactLo = "((_ to_fp 11 53) RNE (- 36893488147419103232.0))" // -2^65
+
+func wideIntToFloat(i string) string {
+	return fmt.Sprintf("((_ to_fp 11 53) RNE ((_ int2bv 66) %s))", i)
+}
+
+func wideFloatToInt(f string) string {
+	return fmt.Sprintf("(let ((b!c ((_ fp.to_sbv 66) RTZ %s))) (ite (bvslt b!c (_ bv0 66)) (- (bv2nat b!c) 73786976294838206464) (bv2nat b!c)))", f)
+}
+
+func exactLessIntFloat(ii intInfo, i, f string) string {
+	fi := wideIntToFloat(i)
+	return fmt.Sprintf("(ite (fp.geq %s %s) true (ite (fp.leq %s %s) false (or (fp.lt %s %s) (and (fp.eq %s %s) (< %s %s)))))",
+		f, exactHi, f, exactLo, fi, f, fi, f, i, wideFloatToInt(f))
+}
+
+// exactLessFloatInt: f < i.
+func exactLessFloatInt(ii intInfo, f, i string) string {
+	fi := wideIntToFloat(i)
+	return fmt.Sprintf("(ite (fp.geq %s %s) false (ite (fp.leq %s %s) true (or (fp.lt %s %s) (and (fp.eq %s %s) (< %s %s)))))",
+		f, exactHi, f, exactLo, f, fi, fi, f, wideFloatToInt(f), i)
 }
 
 func smtFloat64(f float64) string {
